@@ -284,7 +284,7 @@ def shard_accessor(spec, R):
         order = [("y", "x", "time"), ("time", "y", "x"), ("y", "time", "x")][it % 3]
         da = da.transpose(*order)
         use_p = bool((it // 2) % 2)
-        p = float(rng.uniform(0.05, 0.95)) if use_p else None
+        p = float([0.5, rng.uniform(0.05, 0.95), 0.99, rng.uniform(0.05, 0.95), 0.01][it % 5]) if use_p else None
         mode = it % 4  # 0: all defaults (robust=True, default grid); 1: robust False; 2: custom grid; 3: custom grid robust False
         kw = {}
         llas = np.arange(-1.8, 4.2, 0.2)
